@@ -71,7 +71,7 @@ GRAPH_TRUSTED = [
     'assume_specification <[T]>::to_vec',
 ]
 
-SENSITIVE_SIZE = ('N', 'capacity', 'MAX_BRANCHES', 'MAX_BRANCH_SIZE', 'HEX_SIZE', 'size_of', 'size_of_val')
+SENSITIVE_SIZE = ('N', 'cap', 'capacity', 'MAX_BRANCHES', 'MAX_BRANCH_SIZE', 'HEX_SIZE', 'size_of', 'size_of_val')
 SENSITIVE_NONDET = ('HashMap', 'HashSet', 'RandomState', 'rand', 'random', 'thread_rng', 'Instant', 'SystemTime',
                     'thread', 'available_parallelism', 'env', 'addr', 'as_ptr', 'static', 'AtomicUsize', 'AtomicU64',
                     'Cell', 'RefCell', 'Rc', 'Arc', 'Mutex', 'thread_local', 'lazy_static', 'unsafe', 'process', 'id')
@@ -176,7 +176,7 @@ PROPS = {
         'clone-equal on the real clone.rs; step clauses are premises (a failing step clause is a C10 violation only when the '
         'function newly consults shared/nondeterministic state).',
         ['independence of the two copies is value semantics of emap::Map::clone (trusted; Kani audit in the thorough tier)'],
-        extra=dict(classify=classify_config_sensitive(SENSITIVE_NONDET))),
+        extra=dict(classify=classify_config_sensitive(SENSITIVE_NONDET), classify_exempt=('clone',))),
     'C19': graph_prop(
         'C19',
         'contract-based deductive verification (Verus): post-state and result of every core operation are functions of the '
